@@ -31,7 +31,7 @@ RULE = ("one case = (1..3 transports websocket/rawsocket with their own max_retr
         "reset, joined then TCP closed, joined then router GOODBYE, joined then application leave, main returns, main "
         "raises} x stop() at {during the retry delay, connect in flight, TCP up, HELLO sent, joined} of one attempt. One "
         "transport: ALL scripts over {refused, handshake refused, ABORT, joined-then-lost, main raises | application leave, "
-        "main returns} up to length 3 (quick) / 5 (thorough) for every max_retries value, and stop() at every phase of "
+        "main returns} up to length 4 (quick) / 5 (thorough) for every max_retries value, and stop() at every phase of "
         "every attempt of the scripts up to length 2 (quick) / 3 (thorough); 2-3 transports and the remaining outcome "
         "variants: random scripts from random.Random(seed, shard). Runs with an unlimited budget are capped (the "
         "application then calls stop()). A case is non-trivial when the reference judged at least one retry decision "
